@@ -292,6 +292,9 @@ def vc_tape_getattr(H):
                 def kvc_getitem(self, interp, item):
                     return item.k
 
+                def get(self, item, default=None):
+                    return item.k if isinstance(item, CanonName) else default
+
             def b2c(interp, me, a, kw):
                 n = a[0]
                 if n.kind == 'spelling':
